@@ -1,8 +1,12 @@
 package props
 
 import (
+	"bufio"
 	"bytes"
 	"fmt"
+	"io"
+
+	"github.com/ulikunitz/xz"
 
 	"verif/core"
 	"verif/ref"
@@ -21,6 +25,13 @@ type XZWCase struct {
 	Cfg   XZCfg
 	Shape []Seg
 	Parts []int `json:",omitempty"`
+	// Env marks the environment family: Feed = how the input behind Parts is handed over (feedOf), Sink =
+	// kind of sink (0 bare io.Writer, 1 also io.ByteWriter, 2 *bytes.Buffer, 3 *bufio.Writer over a bare
+	// sink, flushed by the caller after every call), and the stream is decoded through several kinds of
+	// source and drained by io.Copy as well
+	Env  bool `json:",omitempty"`
+	Feed int  `json:",omitempty"`
+	Sink int  `json:",omitempty"`
 }
 
 func init() {
@@ -52,9 +63,31 @@ func xzWriteExec(p XZWCase, data []byte) (sink []byte, calls []callRes, verr err
 	if verr = cfg.Verify(); verr != nil {
 		return
 	}
-	var sb sinkBuf
+	var sbb sinkByteBuf
+	sb := &sbb.sinkBuf
+	var bbuf bytes.Buffer
+	var bw *bufio.Writer
+	var sinkW io.Writer = sb
+	switch p.Sink {
+	case 1:
+		sinkW = &sbb
+	case 2:
+		sinkW = &bbuf
+	case 3:
+		bw = bufio.NewWriterSize(sb, 512)
+		sinkW = bw
+	}
+	sync := func() {
+		if bw != nil {
+			bw.Flush()
+		}
+		if p.Sink == 2 {
+			sb.b = bbuf.Bytes()
+		}
+	}
 	pan = core.Guard(func() {
-		w, err := p.Cfg.open(&sb)
+		w, err := p.Cfg.open(sinkW)
+		sync()
 		calls = append(calls, callRes{Call: "NewWriter", Err: err, Sink: len(sb.b)})
 		if err != nil {
 			return
@@ -64,10 +97,18 @@ func xzWriteExec(p XZWCase, data []byte) (sink []byte, calls []callRes, verr err
 		do := func(kind string, q []byte) {
 			if kind == "Close" {
 				err := w.Close()
+				sync()
 				calls = append(calls, callRes{Call: "Close", Err: err, Sink: len(sb.b)})
 				return
 			}
+			if kind == "Feed" {
+				n, err := feedOf(w, q, p.Feed)
+				sync()
+				calls = append(calls, callRes{Call: "Write", N: int(n), Len: len(q), Err: err, Sink: len(sb.b)})
+				return
+			}
 			n, err := w.Write(q)
+			sync()
 			calls = append(calls, callRes{Call: "Write", N: n, Len: len(q), Err: err, Sink: len(sb.b)})
 		}
 		for _, k := range p.Parts {
@@ -86,7 +127,11 @@ func xzWriteExec(p XZWCase, data []byte) (sink []byte, calls []callRes, verr err
 		}
 		if !closed {
 			if len(rest) > 0 || len(p.Parts) == 0 {
-				do("Write", rest)
+				if p.Feed > 0 {
+					do("Feed", rest)
+				} else {
+					do("Write", rest)
+				}
 			}
 			do("Close", nil)
 		}
@@ -95,7 +140,8 @@ func xzWriteExec(p XZWCase, data []byte) (sink []byte, calls []callRes, verr err
 		do("Write", nil)
 		do("Close", nil)
 	})
-	sink = sb.b
+	sync()
+	sink = append([]byte(nil), sb.b...)
 	return
 }
 
@@ -137,6 +183,9 @@ func xzWriteCase(r *core.Run, prop string, p XZWCase) {
 	}
 	site := xzWriterSite(p, data)
 	desc := fmt.Sprintf("cfg=%s input=%s (%d bytes) parts=%v", p.Cfg, shapeString(p.Shape), len(data), p.Parts)
+	if p.Env {
+		desc += fmt.Sprintf(" fed by %s, sink kind %d (0 bare, 1 ByteWriter, 2 bytes.Buffer, 3 bufio.Writer)", feedModeNames[p.Feed], p.Sink)
+	}
 	if pan != nil {
 		if prop == "C01" {
 			r.Violate(cs, "xzW panic@"+pan.Site()+" "+site, desc, pan.Value+" | "+pan.Stack, "no panic")
@@ -221,6 +270,27 @@ func xzWriteCase(r *core.Run, prop string, p XZWCase) {
 				r.Violate(cs, "xzW→xzR(DictCap 4096) mismatch "+site, desc,
 					fmt.Sprintf("reader with ReaderConfig.DictCap=4096: %d bytes, err=%s, first difference at %d", len(out2), errStr(err2), firstDiff(out2, want)),
 					fmt.Sprintf("%d bytes then io.EOF", len(want)))
+			}
+		}
+		// environment family: the same stream through other kinds of source, drained by io.Copy
+		if p.Env && rp == nil && proto == "" {
+			for _, v := range [][2]int{{4, 0}, {2, 1}, {5, 2}, {10, 0}} {
+				var out3 []byte
+				var err3 error
+				var proto3 string
+				rp3 := core.Guard(func() {
+					var rd io.Reader
+					rd, err3 = xz.ReaderConfig{DictCap: 4096}.NewReader(sourceOf(v[0], sink))
+					if err3 != nil {
+						return
+					}
+					out3, err3, proto3 = drainOf(rd, v[1], 4096, 256<<20)
+				})
+				if rp3 != nil || proto3 != "" || !bytes.Equal(out3, want) || errClass(err3) != "EOF" {
+					r.Violate(cs, "xzW→xzR("+sourceKindNames[v[0]]+") mismatch "+site, desc,
+						fmt.Sprintf("reader on a source of kind %q drained by %s: %d bytes, err=%s, first difference at %d", sourceKindNames[v[0]], drainModeNames[v[1]], len(out3), errStr(err3), firstDiff(out3, want)),
+						fmt.Sprintf("%d bytes then io.EOF", len(want)))
+				}
 			}
 		}
 	case "C02":
@@ -833,6 +903,28 @@ func c01Cases(r *core.Run, prop string) []XZWCase {
 		}
 	}
 	rec(nil)
+	// (s) environment family: depth-1 shapes x {one block, several blocks} x two checks, the input
+	// handed over by Write and by io.Copy from four kinds of bare reader, into four kinds of sink;
+	// every stream decoded through five kinds of source. Dictionary capacities 3*2^n with the
+	// bufio.Writer sink (the sink gxz uses) are part of it.
+	for si, sg := range menu1 {
+		for _, blk := range []int64{0, 3000} {
+			for _, ck := range []byte{1, 4} {
+				for feed := 0; feed < nFeedModes; feed++ {
+					for sk := 0; sk < 4; sk++ {
+						c := XZCfg{DictCap: 4096, BlockSize: blk, Check: ck}
+						if (si+feed+sk)%3 == 1 {
+							c.DictCap = 6144
+						}
+						if (si+feed+sk)%5 == 2 && len(buildShapeLen(sg)) <= 5000 {
+							c.Matcher = 1
+						}
+						add(XZWCase{Cfg: c, Shape: []Seg{sg}, Env: true, Feed: feed, Sink: sk})
+					}
+				}
+			}
+		}
+	}
 	return cases
 }
 
@@ -852,7 +944,7 @@ func runXZW(r *core.Run, prop string) {
 }
 
 func runC01(r *core.Run) {
-	r.Rule = "enumeration of the writer space: (a) all strings over {00,'a','b'} up to length n, alone / before / after a compressible tail, x both matchers x property corners; (b) all 75 lc/lp/pb sets x matchers x 8 inputs; (c) DictCap x BufSize x BlockSize(incl. 1, len-1, len, len+1) x 5 checks x matchers x depth-1 shapes; (d) all shape lists of depth 2 (3 when thorough) incl. 64KiB/2MiB chunk limits; (e) all compositions of 6-byte inputs into Write calls + zero-length writes + boundary cuts; (f) all call histories over {Write small, Write empty, Write 70000, Close} up to depth 4 (5). Oracle: calls succeed, library reader returns the input then io.EOF, calls after Close fail and emit nothing. states = (blocks, chunks, first chunk kind) classes of the emitted stream; transitions = chunk-automaton steps and call-history prefixes observed; non-trivial = distinct (result class, history length) pairs"
+	r.Rule = "enumeration of the writer space: (a) all strings over {00,'a','b'} up to length n, alone / before / after a compressible tail, x both matchers x property corners; (b) all 75 lc/lp/pb sets x matchers x 8 inputs; (c) DictCap x BufSize x BlockSize(incl. 1, len-1, len, len+1) x 5 checks x matchers x depth-1 shapes; (d) all shape lists of depth 2 (3 when thorough) incl. 64KiB/2MiB chunk limits; (e) all compositions of 6-byte inputs into Write calls + zero-length writes + boundary cuts; (f) all call histories over {Write small, Write empty, Write 70000, Close} up to depth 4 (5); (s) environment family: depth-1 shapes x {one, several blocks} x input handed over by Write / io.Copy from four kinds of bare reader x four kinds of sink (bare, io.ByteWriter, *bytes.Buffer, *bufio.Writer), each stream decoded through five kinds of source. Oracle: calls succeed, library reader returns the input then io.EOF, calls after Close fail and emit nothing. states = (blocks, chunks, first chunk kind) classes of the emitted stream; transitions = chunk-automaton steps and call-history prefixes observed; non-trivial = distinct (result class, history length) pairs"
 	runXZW(r, "C01")
 	r.Assume("BinaryTree cases use dictionaries <= 64 KiB and low-entropy segments <= 64 KiB (quadratic matcher, cost bound)")
 }
